@@ -109,6 +109,18 @@ func scenForgeSess(r *Run) {
 					h[4] = byte(t.Choose(fs, 256))
 					what = "kcp-cmd"
 				case 2:
+					if to == w.LConn {
+						// a foreign conversation id makes the listener create a session (none
+						// yet) or replace it (sn 0): legitimate, and exercised with its
+						// fences by "peers"; here only the refused case is injected
+						known := false
+						for _, k := range w.L.VerifSessionKeys() {
+							known = known || k == from
+						}
+						if !known || binary.LittleEndian.Uint32(h[12:]) == 0 {
+							return
+						}
+					}
 					binary.LittleEndian.PutUint32(h[0:], binary.LittleEndian.Uint32(h[0:])+uint32(1+t.Choose(fs, 3)))
 					what = "kcp-conv"
 				case 3:
